@@ -128,6 +128,32 @@ def rule_ab(ctx: Context, R: Reporter, fin: FuncInfo, run: FuncInfo, wfn: FuncIn
             n0 = rflow.node_containing(c)
             if n0 is not None:
                 fin_nodes.append(n0.id)
+                # that branch records nominal values without looking at the pool: it is the branch for an *empty* pool,
+                # so it must be guarded by the pool's emptiness (history length == 0), not by a counter that can be reset
+                # while the pool is kept (a second run() on the same sampler, load_state() followed by run())
+                from ..util import path_facts as _pf
+
+                def _empty_pool_fact(t, pol) -> bool:
+                    txt = norm_text(t)
+                    if "get_history_length" in txt or ("len(" in txt and "get_history" in txt):
+                        if isinstance(t, ast.Compare) and len(t.ops) == 1 and const_value(t.comparators[0]) == 0:
+                            return (isinstance(t.ops[0], (ast.Eq, ast.LtE)) and pol) or (isinstance(t.ops[0], (ast.NotEq, ast.Gt)) and not pol)
+                        if isinstance(t, ast.Compare) and len(t.ops) == 1 and const_value(t.comparators[0]) == 1:
+                            return (isinstance(t.ops[0], ast.Lt) and pol) or (isinstance(t.ops[0], ast.GtE) and not pol)
+                        if isinstance(t, ast.Call):
+                            return not pol  # `if not state.get_history_length():`
+                        if isinstance(t, ast.UnaryOp) and isinstance(t.op, ast.Not):
+                            return pol
+                    return False
+
+                facts0 = []
+                for (t, pol) in _pf(run.node, n0, inline_bools=True):
+                    facts0 += split_cond(t, pol)
+                ok0 = any(_empty_pool_fact(t, pol) for (t, pol) in facts0)
+                R.check("C05.a", "the nominal first-iteration record (beta=0, logZ=0, nominal ESS, uniform weights) is written only for an empty pool", ok0, run, c,
+                        msg=f"{run.short}: `{unparse(c)[:50]}` records nominal values without consulting the pool, but the branch is not guarded by the pool being empty (conditions here: "
+                            f"{[(unparse(t)[:30], p) for (t, p) in facts0][:3]}): when the iteration counter is reset while the history is kept (a second run() on the same sampler, "
+                            f"load_state() then run()) a populated pool is treated as empty -- the recorded ESS / logZ and the weights handed on ignore it", key="first-iteration-guard")
     for nd in rcfg.stmt_nodes():
         if nd.kind == "stmt" and isinstance(nd.stmt, ast.Return):
             if nd.id in fin_nodes:
@@ -657,6 +683,8 @@ def variants():
     rw = "tempest/steps/reweight.py"
     core = "tempest/core.py"
     return [
+        Variant("a-first-iteration-by-counter", "bad", replace_expr(rw, "Reweighter.run", "self.state.get_history_length() == 0", "iter_val == 1"), ["C05.a"], quick=True),
+        Variant("a-benign-first-iteration-not-length", "benign", replace_expr(rw, "Reweighter.run", "self.state.get_history_length() == 0", "not self.state.get_history_length()")),
         Variant("g-benign-per-step-scratch", "benign", _scratch_variant()),
         Variant("g-reweighter-keeps-first-logw", "bad", insert_after(rw, "Reweighter._compute_metric_and_weights", "logw, _ = self.state.compute_logw_and_logz(beta)", "if getattr(self, '_lw', None) is None:\n    self._lw = logw\nlogw = self._lw"), ["C05.g"], quick=True),
         Variant("a-weights-of-upper", "bad", replace_stmt(rw, "Reweighter.run", "weights = weights_prev", "weights = weights_upper"), ["C05.a"], quick=True),
